@@ -232,21 +232,26 @@ func (fv *FuncVerifier) merge2(a, b *State) *State {
 	}
 	// heap
 	if a.epoch != b.epoch || !sameIntMap(a.prefEp, b.prefEp) {
-		// different havoc histories: materialise every known heap array on both sides, then
-		// start a fresh epoch for arrays nobody has touched yet
-		names := enc.heapNames()
-		for _, n := range names {
-			srt := enc.heapSort(n)
-			a.heapArr(n, srt)
-			b.heapArr(n, srt)
-		}
+		// different havoc histories: arrays nobody has touched yet get, when first touched, a
+		// version at a "merge epoch" defined as ite(g, version on side a, version on side b)
 		enc.epochCtr++
-		m.epoch = enc.epochCtr
+		E := enc.epochCtr
+		enc.mergeEpochs[E] = &mergeEp{g: g, aEpoch: a.epoch, bEpoch: b.epoch, aPref: copyIntMap(a.prefEp), bPref: copyIntMap(b.prefEp)}
 		m.prefEp = map[string]int{}
+		if a.epoch != b.epoch {
+			m.epoch = E // one side lost the whole heap
+		} else {
+			for p := range a.prefEp {
+				m.prefEp[p] = E
+			}
+			for p := range b.prefEp {
+				m.prefEp[p] = E
+			}
+		}
 		hw := Ite(g, a.hwm, b.hwm)
 		nh := enc.fresh("hwm", SInt)
 		m.assume(Eq(nh, hw))
-		enc.epochHwm[m.epoch] = nh
+		enc.epochHwm[E] = nh
 	}
 	m.heap = map[string]Term{}
 	keys := map[string]bool{}
@@ -321,6 +326,14 @@ func (fv *FuncVerifier) merge2(a, b *State) *State {
 	m.trace = append(m.trace, "join")
 	m.prev = nil
 	_ = strings.TrimSpace
+	return m
+}
+
+func copyIntMap(a map[string]int) map[string]int {
+	m := make(map[string]int, len(a))
+	for k, v := range a {
+		m[k] = v
+	}
 	return m
 }
 
